@@ -27,7 +27,8 @@ func init() { register("C13", c13) }
 //
 //	texts   : Newick() of every input tree
 //	src     : the multi-tree Newick file in the requested layout: text_i (with a line break
-//	          after every comma when breaks) followed by seps_i
+//	          after every comma when breaks; with brk_before = LF or CRLF before every brk_every-th ',' ')' ':' of the
+//	          file, i.e. after labels and numbers) followed by seps_i
 //	multi   : records of ReadMultiTrees(src, newick)
 //	nexus   : WriteNexus(ReadMultiTrees(one tree per line), translate); nexus_err
 //	nexus_recs : records of ReadMultiTrees(nexus text, nexus)
@@ -117,10 +118,28 @@ func c13run(c *Sexp) *Sexp {
 	var lines, src strings.Builder
 	breakat := c.IntList("breakat") // increasing indices of the commas (counted over the whole file) followed by a line break
 	comma := 0
+	delim := 0
 	for i, x := range texts {
 		lines.WriteString(x)
 		lines.WriteString("\n")
-		if c.Bool("breaks") {
+		if e := c.Str("brk_before"); e != "" {
+			// a line break (LF or CRLF) BEFORE every n-th ',' ')' ':' of the file, i.e. right after a label or a number
+			n := c.Int("brk_every")
+			if n < 1 {
+				n = 1
+			}
+			var b strings.Builder
+			for j := 0; j < len(x); j++ {
+				if x[j] == ',' || x[j] == ')' || x[j] == ':' {
+					if delim%n == 0 {
+						b.WriteString(e)
+					}
+					delim++
+				}
+				b.WriteByte(x[j])
+			}
+			x = b.String()
+		} else if c.Bool("breaks") {
 			x = strings.ReplaceAll(x, ",", ",\n")
 		} else if len(breakat) > 0 {
 			var b strings.Builder
